@@ -422,8 +422,8 @@ func c11JoinStorm(c *fw.Ctx, k int) {
 				if atomic.LoadInt32(&stop) != 0 {
 					return
 				}
-				if cycle > 0 && !m.IsMedia() {
-					continue
+				if cycle > 0 && !m.IsMedia() && (int(cycle)+k)%3 != 0 {
+					continue // header messages keep coming now and then (players waiting for a key frame get them at once)
 				}
 				if pr.RC.Send(ref.RtmpMsg{Csid: csidFor(m.Type), TypeID: m.Type, StreamID: pr.Msid, Ts: m.Ts + cycle*span, Payload: m.Payload}, 0) != nil {
 					return
@@ -451,7 +451,9 @@ func c11JoinStorm(c *fw.Ctx, k int) {
 		}
 		req := "GET /live/" + name + ".flv HTTP/1.1\r\nHost: x\r\n"
 		if ws {
-			req += "Upgrade: websocket\r\nConnection: Upgrade\r\nSec-WebSocket-Key: dGhlIHNhbXBsZSBub25jZQ==\r\nSec-WebSocket-Version: 13\r\n"
+			// browsers differ in the Connection header list (Firefox sends "keep-alive, Upgrade")
+			connHdr := []string{"Upgrade", "keep-alive, Upgrade", "Upgrade, keep-alive"}[(n/2)%3]
+			req += "Upgrade: websocket\r\nConnection: " + connHdr + "\r\nSec-WebSocket-Key: dGhlIHNhbXBsZSBub25jZQ==\r\nSec-WebSocket-Version: 13\r\n"
 		}
 		conn.Write([]byte(req + "\r\n"))
 		var got []byte
@@ -480,6 +482,10 @@ func c11JoinStorm(c *fw.Ctx, k int) {
 		if he < 0 {
 			continue
 		}
+		if ws && !bytes.HasPrefix(got, []byte("HTTP/1.1 101")) {
+			c.Violate("join/ws-upgrade-refused/"+kind, fmt.Sprintf("join %d: a WebSocket upgrade request was answered with %q", n, got[:min(len(got), 30)]), nil)
+			return
+		}
 		body := got[he+4:]
 		if ws {
 			var wp ref.WsParser
@@ -496,6 +502,25 @@ func c11JoinStorm(c *fw.Ctx, k int) {
 		if len(body) >= 13 && !bytes.Equal(body[:13], []byte{'F', 'L', 'V', 1, body[4], 0, 0, 0, 9, 0, 0, 0, 0}) {
 			c.Violate("join/flv-header-not-first/"+kind, fmt.Sprintf("join %d: the body does not start with the FLV header and the zero back-pointer: % x", n, body[:13]), nil)
 			return
+		}
+		if len(body) >= 13 {
+			// every complete tag that arrived: type 8/9/18, stream id 0, back-pointer = 11 + data size
+			off := 13
+			for off+11 <= len(body) {
+				ds := int(body[off+1])<<16 | int(body[off+2])<<8 | int(body[off+3])
+				if t := body[off]; (t != 8 && t != 9 && t != 18) || body[off+8] != 0 || body[off+9] != 0 || body[off+10] != 0 {
+					c.Violate("join/flv-tag/"+kind, fmt.Sprintf("join %d: at body offset %d: not an FLV tag header: % x", n, off, body[off:off+11]), nil)
+					return
+				}
+				if off+11+ds+4 > len(body) {
+					break
+				}
+				if bp := int(body[off+11+ds])<<24 | int(body[off+12+ds])<<16 | int(body[off+13+ds])<<8 | int(body[off+14+ds]); bp != 11+ds {
+					c.Violate("join/flv-tag/"+kind, fmt.Sprintf("join %d: tag at body offset %d (data size %d) is followed by back-pointer %d", n, off, ds, bp), nil)
+					return
+				}
+				off += 11 + ds + 4
+			}
 		}
 	}
 	atomic.StoreInt32(&stop, 1)
